@@ -527,14 +527,27 @@ class DAGRunConcurrentManager(DAGRunManagerLike):
 
         return self._node_storage.get_node_result(dag.dest, with_hidden=True)
 
+    def __get_subgraph_error(self, dag: DiGraph) -> t.Optional[BaseException]:
+        """
+        Get the first error of the subgraph. The selected case of a switch node belongs to the subgraph as well
+        """
+        for node_id in dag.nodes:
+            node_ids = [node_id]
+
+            if self._is_switch(node_id) and self._node_storage.get_switch_result(node_id) is not None:
+                node_ids.append(self._node_storage.get_switch_result(node_id).node_id)
+
+            for checked_node_id in node_ids:
+                if self._node_storage.exists_node_error(checked_node_id):
+                    return self._node_storage.get_node_result(checked_node_id)
+
+        return None
+
     def __has_subgraph_error(self, dag: DiGraph) -> bool:
         """
         Check if the subgraph has an error
         """
-        return any([
-            self._node_storage.exists_node_error(node_id)
-            for node_id in dag.nodes
-        ])
+        return self.__get_subgraph_error(dag) is not None
 
     async def _run_oneof(self, dag: DiGraph, node_id: NodeId) -> t.Any:
         """
@@ -615,13 +628,23 @@ class DAGRunConcurrentManager(DAGRunManagerLike):
 
             await self.__raise_exc(error)
 
-        return await self._run_dag(
-            dag=self._get_reduced_dag(
-                self.dag.input_node,
-                (self._node_storage.get_switch_result(node_id)).node_id,
-                is_oneof=dag.is_oneof,
-            ),
+        case_dag = self._get_reduced_dag(
+            self.dag.input_node,
+            (self._node_storage.get_switch_result(node_id)).node_id,
+            is_oneof=dag.is_oneof,
         )
+
+        result = await self._run_dag(dag=case_dag)
+
+        if dag.is_oneof and self.__has_subgraph_error(case_dag):
+            # Inside a OneOf branch an error is stored as a node result. The nodes of the selected case are not
+            # a part of the branch's subgraph, hence the switch node itself has to carry the error, otherwise
+            # the branch would never be recognized as failed.
+            self._node_storage.set_node_result(node_id, self.__get_subgraph_error(case_dag))
+            await self.__unlock_descendants(node_id)
+            await self.__unlock_itself(dag.dest)
+
+        return result
 
     async def _run_node(
         self,
